@@ -76,7 +76,8 @@ pub fn check(case: &Case, _rec: &mut Rec) -> Option<Failure> {
         let chk = |what: &str, got: f64, want: DD, tol: f64| -> Option<Failure> {
             let d = absdiff(got, want);
             if !(d <= tol) {
-                fail(case, "drift", format!("t={} ({} regime, m={:e}, n={}): {} = {:e}, from-scratch evaluation of the current window = {:e}, |diff| {:e} > τ(t)·M = {:e}", t, regime, m, n, what, got, want.to_f64(), d, tol))
+                let sym = if what == "WMA" && d <= 2.0 * tol { "drift-marginal" } else { "drift" };
+                fail(case, sym, format!("t={} ({} regime, m={:e}, n={}): {} = {:e}, from-scratch evaluation of the current window = {:e}, |diff| {:e} > τ(t)·M = {:e}", t, regime, m, n, what, got, want.to_f64(), d, tol))
             } else {
                 None
             }
